@@ -9,6 +9,23 @@ ident, a threading.local counter).  Checker: within one foreign thread the
 local counter goes 0,1,2,... (state persists), a new thread never sees an
 earlier thread's local data, every scripted call produced exactly one event,
 and the process survives (ASan/UBSan deciding; TSan build as observation).
+
+Audit extension: the waves are driven by a second helper module (_c36mod, defined
+below) so that waves can overlap (a group of threads stays alive while later
+waves start, call back and exit), threads can end with pthread_exit(), and a
+thread can bracket some of its callbacks with its own PyGILState_Ensure()
+(GIL held, or released again with PyEval_SaveThread()) -- i.e. the thread state
+is provided by CPython, not by cffi, for part of the thread's life.  Callbacks
+can raise (onerror handler), Python threads invoke callbacks through C as well.
+New oracles: PyGILState_Check() is true inside every callback and the frame of
+the callback is the one sys._current_frames() lists for this thread; an object
+stored in the threading.local of a foreign thread is released, and the number of
+PyThreadStates of the interpreter is back within bounds, once a thread started
+after that thread's exit has called back (thread states of exited threads do
+not leak to later threads); and foreign threads that are idle when the
+interpreter finalizes and exit afterwards (plus exited threads still pending in
+the zombie list at that moment) leave a clean process exit (separate
+subprocesses, ASan).
 """
 import os, sys, time, threading, random, subprocess, json
 from vlib import core, modbuild, thrmod, build
@@ -19,19 +36,214 @@ RULE = ("case = one scenario: 2-5 waves of 1-12 foreign threads x 0-50 callback 
         "optionally nested cffi callbacks made from inside the callback (through a C call = GIL "
         "released, or through a ctypes PYFUNCTYPE pointer = GIL held), optionally os.fork() "
         "while exited foreign threads are still pending in the zombie list followed by new "
-        "foreign threads in the child and in the parent; distinct = "
-        "(wave sizes, calls per thread, callback kind, nesting mode, fork); non-trivial = >= 2 foreign "
-        "threads with >= 2 calls each")
+        "foreign threads in the child and in the parent; waves optionally overlap (join deferred "
+        "until after the next wave), threads end by return or pthread_exit(), optionally bracket "
+        "calls [a,b) with their own PyGILState_Ensure (GIL held or released by PyEval_SaveThread), "
+        "optionally make one more callback from a pthread key destructor while exiting, "
+        "callbacks optionally raise into an onerror handler, Python threads optionally invoke "
+        "callbacks through C; plus late-exit subprocesses: foreign threads idle at Py_Finalize "
+        "that exit afterwards, with exited threads pending as zombies; distinct = "
+        "(wave sizes, calls per thread, thread modes, overlap, callback kind, nesting mode, fork, "
+        "raising); non-trivial = >= 2 foreign threads with >= 2 calls each")
 ASSUMPTIONS = ["TSan reports are observations only (the unlocked fast-path read of cffi_zombie_head.zombie_next is a known C11 race that does not affect the property)",
-               "the thread-state checks are behavioural: threading.get_ident() stable per foreign thread, threading.local data persisting across calls of one thread and fresh for a new thread"]
+               "the thread-state checks are behavioural: threading.get_ident() stable per foreign thread, threading.local data persisting across calls of one thread and fresh for a new thread, PyGILState_Check() true, sys._current_frames()[get_ident()] is the callback's frame",
+               "a thread that obtained its thread state from its own PyGILState_Ensure() before its first cffi callback loses it (CPython deletes it) at its own PyGILState_Release(): the thread-local counter may restart exactly there",
+               "leak oracle: cffi reaps exited threads lazily, when a thread without a thread state makes its first callback; demanded only after such a callback by a thread that was started after the exited thread had been joined",
+               "a callback made from a pthread key destructor (thread mode 4) may legitimately run on a fresh thread state: glibc clears the slot of CPython's gilstate key before it calls later destructors; persistence is not demanded for that one call",
+               "late-exit scenario: the foreign threads make no callback after their last scripted one; they only exit (TLS destructor) after Py_Finalize, released by a libc atexit handler"]
 SAN_DECIDES = True
+
+
+C36_CDEF = r"""
+typedef int (*thr36_cb_t)(int wave, int tid, int idx);
+extern "Python" int ep36(int wave, int tid, int idx);
+int grp_start(int wave, int n, int *ncalls, int *sleep_us, int *exit_delay_us, int *mode,
+              int *a, int *b, thr36_cb_t cb, int use_extern_python);
+int grp_join(int handle);
+int late_start(int n, int *ncalls, int *exit_delay_us, thr36_cb_t cb, int use_extern_python);
+int late_ready_count(void);
+int call_cb3(thr36_cb_t cb, int wave, int tid, int idx);
+"""
+
+# thread modes: 0 return from the start routine, 1 pthread_exit(), 2 own
+# PyGILState_Ensure() around calls [a,b) with the GIL held, 3 the same but the GIL
+# released again by PyEval_SaveThread() (thread state exists, is not current), 4 one more
+# callback (idx == ncalls) from a pthread key destructor while the thread exits; the key is
+# younger than cffi's, so this runs after cffi_thread_shutdown (and, with glibc, after the
+# slot of CPython's own gilstate key has been cleared: the thread gets a second thread state)
+C36_SOURCE = r"""
+#include <pthread.h>
+#include <unistd.h>
+#include <stdlib.h>
+#include <string.h>
+
+typedef int (*thr36_cb_t)(int wave, int tid, int idx);
+static int ep36(int wave, int tid, int idx);
+
+struct thr36 {
+    pthread_t th; int wave, tid, ncalls, sleep_us, exit_delay_us, mode, a, b, created;
+    thr36_cb_t cb;
+};
+struct grp36 { int n; struct thr36 *ts; };
+#define MAXGRP 256
+static struct grp36 grps[MAXGRP];
+
+int call_cb3(thr36_cb_t cb, int wave, int tid, int idx) { return cb(wave, tid, idx); }
+
+static pthread_key_t key36;
+static int key36_made;
+static void key36_dtor(void *p)
+{
+    struct thr36 *t = (struct thr36 *)p;
+    t->cb(t->wave, t->tid, t->ncalls);
+}
+
+static void run_calls(struct thr36 *t)
+{
+    int i, in_bracket = 0;
+    PyGILState_STATE gs = PyGILState_UNLOCKED;
+    PyThreadState *saved = NULL;
+    for (i = 0; i < t->ncalls; i++) {
+        if ((t->mode == 2 || t->mode == 3) && i == t->a && t->a < t->b) {
+            gs = PyGILState_Ensure();
+            in_bracket = 1;
+            if (t->mode == 3)
+                saved = PyEval_SaveThread();
+        }
+        t->cb(t->wave, t->tid, i);
+        if (in_bracket && i == t->b - 1) {
+            if (t->mode == 3)
+                PyEval_RestoreThread(saved);
+            PyGILState_Release(gs);
+            in_bracket = 0;
+        }
+        if (t->sleep_us && !(in_bracket && t->mode == 2))
+            usleep(t->sleep_us);
+    }
+    if (in_bracket) {
+        if (t->mode == 3)
+            PyEval_RestoreThread(saved);
+        PyGILState_Release(gs);
+    }
+}
+
+static void *thr36_main(void *arg)
+{
+    struct thr36 *t = (struct thr36 *)arg;
+    if (t->mode == 4)
+        pthread_setspecific(key36, t);
+    run_calls(t);
+    if (t->exit_delay_us)
+        usleep(t->exit_delay_us);
+    if (t->mode == 1)
+        pthread_exit(NULL);
+    return NULL;
+}
+
+int grp_start(int wave, int n, int *ncalls, int *sleep_us, int *exit_delay_us, int *mode,
+              int *a, int *b, thr36_cb_t cb, int use_extern_python)
+{
+    int h, i;
+    for (h = 0; h < MAXGRP; h++)
+        if (grps[h].ts == NULL)
+            break;
+    if (h == MAXGRP)
+        return -1;
+    if (!key36_made) {
+        if (pthread_key_create(&key36, key36_dtor) != 0)
+            return -1;
+        key36_made = 1;
+    }
+    grps[h].n = n;
+    grps[h].ts = calloc(n ? n : 1, sizeof(struct thr36));
+    for (i = 0; i < n; i++) {
+        struct thr36 *t = &grps[h].ts[i];
+        t->wave = wave; t->tid = i; t->ncalls = ncalls[i]; t->sleep_us = sleep_us[i];
+        t->exit_delay_us = exit_delay_us[i]; t->mode = mode[i]; t->a = a[i]; t->b = b[i];
+        t->cb = use_extern_python ? ep36 : cb;
+        t->created = (pthread_create(&t->th, NULL, thr36_main, t) == 0);
+    }
+    return h;
+}
+
+int grp_join(int h)
+{
+    int i, bad = 0;
+    if (h < 0 || h >= MAXGRP || grps[h].ts == NULL)
+        return 1000000;
+    for (i = 0; i < grps[h].n; i++) {
+        if (grps[h].ts[i].created)
+            pthread_join(grps[h].ts[i].th, NULL);
+        else
+            bad += 1000;
+    }
+    free(grps[h].ts);
+    grps[h].ts = NULL;
+    return bad;
+}
+
+/* threads that finish their calls, then stay idle until the process runs its
+   libc atexit handlers (after Py_Finalize), and only then exit */
+#define MAXLATE 16
+static struct thr36 late_ts[MAXLATE];
+static int late_n;
+static volatile int late_go, late_ready;
+
+static void *late_main(void *arg)
+{
+    struct thr36 *t = (struct thr36 *)arg;
+    run_calls(t);
+    __sync_fetch_and_add(&late_ready, 1);
+    while (!late_go)
+        usleep(200);
+    if (t->exit_delay_us)
+        usleep(t->exit_delay_us);
+    return NULL;
+}
+
+static void late_atexit(void)
+{
+    int i;
+    static const char msg[] = "c36-late-exit-done\n";
+    late_go = 1;
+    for (i = 0; i < late_n; i++)
+        if (late_ts[i].created)
+            pthread_join(late_ts[i].th, NULL);
+    if (write(1, msg, sizeof(msg) - 1) < 0) { }
+}
+
+int late_start(int n, int *ncalls, int *exit_delay_us, thr36_cb_t cb, int use_extern_python)
+{
+    int i, bad = 0;
+    if (late_n != 0 || n > MAXLATE)
+        return -1;
+    if (atexit(late_atexit) != 0)
+        return -1;
+    late_n = n;
+    for (i = 0; i < n; i++) {
+        struct thr36 *t = &late_ts[i];
+        t->wave = 99; t->tid = i; t->ncalls = ncalls[i]; t->exit_delay_us = exit_delay_us[i];
+        t->cb = use_extern_python ? ep36 : cb;
+        t->created = (pthread_create(&t->th, NULL, late_main, t) == 0);
+        if (!t->created)
+            bad++;
+    }
+    return bad;
+}
+int late_ready_count(void) { return late_ready; }
+"""
 
 
 def build_mod(ctx):
     d = os.path.join(ctx.tmp, 'mod')
-    res = modbuild.build_modules(ctx, [thrmod.spec(d)])['_thrmod']
-    if not res['ok']:
-        raise core.Inconclusive('helper module build failed: ' + res['error'] + res.get('log', ''))
+    spec36 = {'name': '_c36mod', 'kind': 'api', 'cdef': C36_CDEF, 'source': C36_SOURCE, 'dir': d,
+              'kwds': {'libraries': ['pthread']}}
+    allres = modbuild.build_modules(ctx, [thrmod.spec(d), spec36])
+    for name in ('_thrmod', '_c36mod'):
+        res = allres[name]
+        if not res['ok']:
+            raise core.Inconclusive('helper module %s build failed: %s%s' %
+                                    (name, res['error'], res.get('log', '')))
     return {'dir': d}
 
 
@@ -51,6 +263,13 @@ def run(ctx):
         if core.std_obs_check(ctx, c, o, True, False):
             judge(ctx, setup, c, o)
             ctx.count('tsan_scenarios', len(c['seeds']))
+    # foreign threads that are idle at Py_Finalize and exit afterwards
+    import concurrent.futures as cf
+    lseeds = [rng.getrandbits(30) for _ in range(ctx.scale(4, 60))]
+    with cf.ThreadPoolExecutor(max_workers=2) as ex:
+        lres = list(ex.map(lambda sd: late_exit_run(ctx, setup, sd), lseeds))
+    for sd, res in zip(lseeds, lres):
+        late_exit_judge(ctx, setup, sd, res)
     # Interpreter shutdown while detached foreign threads are still *calling back*
     # was tried and dropped: a callback entered after Py_Finalize is outside what
     # CPython supports (observed: SIGSEGV in 1 of 6 runs on the unchanged tree) and
@@ -116,10 +335,138 @@ def shutdown_scenario(ctx, setup, seed, variant):
         ctx.inconclusive('shutdown scenario printed nothing')
 
 
+LATE_SCRIPT = r"""
+import sys, time, threading, gc
+sys.path.insert(0, %(dir)r)
+import _c36mod
+ffi, lib = _c36mod.ffi, _c36mod.lib
+tls = threading.local()
+count = [0]
+bad = []
+def record(wave, tid, idx):
+    n = getattr(tls, 'n', -1) + 1
+    tls.n = n
+    if n != idx:
+        bad.append((wave, tid, idx, n))
+    count[0] += 1
+    return 0
+cb = ffi.callback('int(int, int, int)', record)
+ffi.def_extern(name='ep36')(record)
+def wave(w, calls):
+    n = len(calls)
+    z = ffi.new('int[]', n)
+    h = lib.grp_start(w, n, ffi.new('int[]', calls), z, z, z, z, z, cb, %(ep)d)
+    return lib.grp_join(h)
+rc = 0
+early, late, late_delays, early2 = %(early)r, %(late)r, %(late_delays)r, %(early2)r
+if early:
+    rc += wave(0, early)          # exited threads: pending zombies
+rc += lib.late_start(len(late), ffi.new('int[]', late), ffi.new('int[]', late_delays), cb, %(ep)d)
+deadline = time.time() + 100
+while lib.late_ready_count() < len(late) and time.time() < deadline:
+    time.sleep(0.002)
+if early2:
+    rc += wave(1, early2)         # reaps the first zombies, leaves new ones
+if %(gc)d:
+    gc.collect()
+print('c36-ready', count[0], lib.late_ready_count(), rc, len(bad))
+sys.stdout.flush()
+%(exit)s
+"""
+
+
+def late_exit_run(ctx, setup, seed):
+    """Foreign threads call back, then stay idle; the interpreter finalizes (clearing
+    their thread states under cffi's feet); a libc atexit handler then lets them exit
+    (cffi_thread_shutdown after Py_Finalize).  Exited threads are pending in the
+    zombie list at Py_Finalize as well.  The process must exit cleanly."""
+    rnd = random.Random(seed)
+    early = [rnd.choice([0, 1, 2, 5]) for _ in range(rnd.choice([0, 1, 2, 5]))]
+    late = [rnd.choice([0, 1, 1, 3, 10]) for _ in range(rnd.choice([1, 2, 4, 8]))]
+    early2 = [rnd.choice([1, 2]) for _ in range(rnd.choice([0, 0, 1, 3]))]
+    params = {'dir': setup['dir'], 'ep': rnd.choice([0, 0, 1]), 'early': early, 'late': late,
+              'late_delays': [rnd.choice([0, 0, 200, 3000]) for _ in late], 'early2': early2,
+              'gc': rnd.choice([0, 1]),
+              'exit': rnd.choice(['', 'sys.exit(0)', 'raise SystemExit(0)'])}
+    script = LATE_SCRIPT % params
+    logbase = os.path.join(ctx.tmp, 'late_%d.san' % seed)
+    env = build.child_env('asan', logbase=logbase)
+    try:
+        p = subprocess.run(build.python_cmd('asan') + ['-c', script], env=env, cwd=ctx.tmp,
+                           stdout=subprocess.PIPE, stderr=subprocess.PIPE, timeout=300)
+    except subprocess.TimeoutExpired:
+        return None
+    san = ''
+    for fn in os.listdir(ctx.tmp):
+        if fn.startswith('late_%d.san' % seed):
+            with open(os.path.join(ctx.tmp, fn), errors='replace') as f:
+                san += f.read()
+    return {'rc': p.returncode, 'out': p.stdout.decode(errors='replace'),
+            'err': p.stderr.decode(errors='replace'), 'san': san, 'early': early, 'late': late,
+            'early2': early2, 'ep': params['ep'], 'exit': params['exit']}
+
+
+def late_exit_scenario(ctx, setup, seed):
+    late_exit_judge(ctx, setup, seed, late_exit_run(ctx, setup, seed))
+
+
+def late_exit_judge(ctx, setup, seed, res):
+    if res is None:
+        ctx.inconclusive('late-exit scenario timed out (watchdog)')
+        return
+    out, err, san = res['out'], res['err'], res['san']
+    early, late, early2 = res['early'], res['late'], res['early2']
+    rc = res['rc']
+    case = {'late_exit': True, 'seed': seed}
+    ncalls = sum(early) + sum(late) + sum(early2)
+    ctx.case(('late-exit', tuple(early), tuple(late), tuple(early2), res['ep'], res['exit']),
+             nontrivial=sum(1 for x in late if x >= 1) >= 1,
+             sample={'late_exit': True, 'zombies_at_finalize': early2 or early, 'idle_threads': late,
+                     'rc': rc, 'stdout': out.strip()[:80]})
+    ctx.count('late_exit_scenarios')
+    ctx.count('late_exit_idle_threads', len(late))
+    ctx.count('late_exit_zombies_at_finalize', sum(1 for x in (early2 or early) if x >= 1))
+    ready = [l for l in out.splitlines() if l.startswith('c36-ready')]
+    if not ready:
+        if rc != 0 or san:
+            if san:
+                ctx.sanitizer(san, case, deciding=True)
+            ctx.violation('crash-before-interpreter-exit:late-exit-scenario',
+                          'late-exit script died before finalization: rc=%s stderr=%s' %
+                          (rc, err[-800:]), case)
+        else:
+            ctx.inconclusive('late-exit scenario printed nothing')
+        return
+    f = ready[0].split()
+    if int(f[3]) != 0 or int(f[2]) != len(late):
+        ctx.inconclusive('late-exit scenario: harness could not start/observe its threads: ' +
+                         ready[0])
+        return
+    if int(f[1]) != ncalls:
+        ctx.violation('callback-count:late-exit-scenario', '%d scripted calls, %s events' %
+                      (ncalls, f[1]), case)
+    if int(f[4]) != 0:
+        ctx.violation('thread-local-not-persistent:late-exit-scenario',
+                      '%s callbacks saw a wrong thread-local counter' % f[4], case)
+    if san:
+        ctx.sanitizer(san, case, deciding=True)
+    if rc != 0:
+        ctx.violation('crash-at-thread-exit-after-finalize:rc=%s' %
+                      ('signal' if rc < 0 else 'nonzero'),
+                      'early=%r idle=%r early2=%r: %d idle foreign threads exited after Py_Finalize '
+                      'with %d exited threads pending: rc=%s stderr=%s' %
+                      (early, late, early2, len(late), len(early2 or early), rc,
+                       err[-800:]), case)
+    elif 'c36-late-exit-done' not in out:
+        ctx.violation('crash-at-thread-exit-after-finalize:no-exit-marker',
+                      'process ended with rc 0 but the atexit handler that joins the idle foreign '
+                      'threads did not finish: stdout=%r stderr=%s' % (out[-200:], err[-600:]), case)
+
+
 def child_setup(setup, wd):
     sys.path.insert(0, setup['dir'])
-    import _thrmod
-    return {'ffi': _thrmod.ffi, 'lib': _thrmod.lib}
+    import _thrmod, _c36mod
+    return {'ffi': _thrmod.ffi, 'lib': _thrmod.lib, 'ffi36': _c36mod.ffi, 'lib36': _c36mod.lib}
 
 
 def _san_log_of(pid):
@@ -135,9 +482,63 @@ def _san_log_of(pid):
     return txt
 
 
+class Token(object):
+    """lives in the threading.local of one foreign thread"""
+    __slots__ = ('__weakref__',)
+
+
+_TS_API = []
+
+
+def _tstate_api():
+    if not _TS_API:
+        import ctypes
+        api = ctypes.pythonapi
+        api.PyGILState_Check.restype = ctypes.c_int
+        api.PyGILState_Check.argtypes = []
+        api.PyInterpreterState_Get.restype = ctypes.c_void_p
+        api.PyInterpreterState_Get.argtypes = []
+        api.PyInterpreterState_ThreadHead.restype = ctypes.c_void_p
+        api.PyInterpreterState_ThreadHead.argtypes = [ctypes.c_void_p]
+        api.PyThreadState_Next.restype = ctypes.c_void_p
+        api.PyThreadState_Next.argtypes = [ctypes.c_void_p]
+
+        def count_tstates():
+            # (ctypes.pythonapi keeps the GIL: no thread state is unlinked meanwhile)
+            ts = api.PyInterpreterState_ThreadHead(api.PyInterpreterState_Get())
+            k = 0
+            while ts:
+                k += 1
+                ts = api.PyThreadState_Next(ts)
+            return k
+        _TS_API.append((api.PyGILState_Check, count_tstates))
+    return _TS_API[0]
+
+
+def _registers(calls, mode, a, b):
+    """does this thread make a callback at a moment where it has no thread state
+    (cffi then creates one, and reaps exited threads first)?"""
+    if mode == 4:
+        return True         # the destructor callback
+    if calls < 1:
+        return False
+    if mode in (2, 3) and a == 0 and a < b and b >= calls:
+        return False        # all its callbacks run inside its own PyGILState_Ensure()
+    return True
+
+
+def _reset_at(calls, mode, a, b):
+    """call index at which CPython (not cffi) drops the thread state of this thread"""
+    if mode in (2, 3) and a == 0 and a < b and b < calls:
+        return b
+    return None
+
+
 def scenario(st, seed, rep):
-    import gc
+    import gc, weakref
     ffi, lib = st['ffi'], st['lib']
+    ffi36, lib36 = st['ffi36'], st['lib36']
+    gil_check, count_tstates = _tstate_api()
     rnd = random.Random(seed)
     nwaves = rnd.choice([2, 3, 4, 5])
     use_ep = rnd.random() < 0.4
@@ -149,10 +550,18 @@ def scenario(st, seed, rep):
     # (no fork in the TSan build: TSan does not support new threads after a multi-threaded fork)
     do_fork = rnd.random() < 0.3 and not os.environ.get('VERIF_C36_NOFORK') and \
         'TSAN_OPTIONS' not in os.environ
+    raising = rnd.random() < 0.3          # some callbacks raise (into an onerror handler)
+    overlap = rnd.random() < 0.45         # waves overlap: join deferred
+    modes_on = rnd.random() < 0.5         # pthread_exit / own PyGILState_Ensure brackets
+    pycalls = rnd.random() < 0.5          # Python threads invoke callbacks through C too
     log = []
     lock = threading.Lock()
     tls = threading.local()
     inner_seen = []
+    tokens = {}
+    state_bad = []
+    nchecks = {'gil': 0, 'frame': 0, 'raised': 0, 'pycb': 0, 'leak': 0, 'leak_threads': 0,
+               'count': 0}
 
     def inner_fn(x):
         inner_seen.append(x)
@@ -173,10 +582,29 @@ def scenario(st, seed, rep):
         if n is None:
             tls.n = 0
             tls.owner = (wave, tid)
+            tls.token = Token()
             n = 0
+            with lock:
+                tokens.setdefault((wave, tid), []).append(weakref.ref(tls.token))
         else:
             tls.n = n + 1
             n = n + 1
+        # the thread state in use is the one bound to this OS thread
+        nchecks['gil'] += 1
+        if gil_check() != 1:
+            state_bad.append(('callback-without-valid-gilstate', 'wave %d thread %d call %d: '
+                              'PyGILState_Check() is false inside the callback' %
+                              (wave, tid, idx)))
+        if idx == 0 or idx % 7 == 3:
+            nchecks['frame'] += 1
+            frames = sys._current_frames()
+            mine = frames.get(ident)
+            del frames
+            if mine is not sys._getframe():
+                state_bad.append(('callback-on-thread-state-of-another-thread', 'wave %d thread '
+                                  '%d call %d: sys._current_frames()[get_ident()] is not the '
+                                  'callback frame' % (wave, tid, idx)))
+            del mine
         if nest and (idx + tid) % 3 != 1:
             if nest in ('c', 'both'):
                 tls.last_inner = None
@@ -195,11 +623,28 @@ def scenario(st, seed, rep):
                                     (tls.last_inner, (ident, n, idx + 1)))
         with lock:
             log.append((wave, tid, idx, ident, n, owner))
+        if raising and idx % 4 == 2:
+            tls.raised_at = (ident, n)
+            raise ValueError('scripted')
         return 0
-    cb = ffi.callback('int(int, int, int)', record)
+
+    def onerr(exc, val, tb):
+        nchecks['raised'] += 1
+        got = getattr(tls, 'raised_at', None)
+        if got != (threading.get_ident(), getattr(tls, 'n', None)):
+            state_bad.append(('onerror-handler-on-another-thread-state', 'the onerror handler of a '
+                              'raising callback sees %r, the callback left %r' %
+                              ((threading.get_ident(), getattr(tls, 'n', None)), got)))
+        return None
+    cb = ffi36.callback('thr36_cb_t', record, onerror=onerr)
     if use_ep:
-        ffi.def_extern(name='ep_thread')(record)
+        ffi36.def_extern(name='ep36', onerror=onerr)(record)
     stop = [False]
+
+    def pyrecord(wave, tid, idx):
+        nchecks['pycb'] += 1
+        return idx + 1
+    pycb = ffi36.callback('thr36_cb_t', pyrecord)
 
     def pywork(k):
         r = random.Random(seed + k)
@@ -212,6 +657,8 @@ def scenario(st, seed, rep):
                 keep.append(ffi.callback('int(int)', lambda x: x))
                 if len(keep) > 50:
                     del keep[:25]
+            elif a < 0.8 and pycalls:
+                lib36.call_cb3(pycb, -1, k, 5)
             else:
                 lib.add_touch(3)
             time.sleep(0)
@@ -219,20 +666,82 @@ def scenario(st, seed, rep):
     for p in pys:
         p.start()
     plan = []
-    rc_total = 0
+    pre = {}
+    finished = []
+    open_groups = []
 
-    def wave(w):
+    def arr(v):
+        return ffi36.new('int[]', v)
+
+    def start(w, longlived=False):
         n = rnd.choice([1, 2, 3, 6, 12])
         calls = [rnd.choice([0, 1, 2, 5, 20, 50]) for _ in range(n)]
         sleeps = [rnd.choice([0, 0, 20, 200]) for _ in range(n)]
         delays = [rnd.choice([0, 0, 100, 1000]) for _ in range(n)]
-        plan.append((n, calls))
-        return lib.run_wave(w, n, ffi.new('int[]', calls), ffi.new('int[]', sleeps),
-                            ffi.new('int[]', delays), cb, 1 if use_ep else 0)
+        if longlived:
+            for t in range(0, n, 2):
+                calls[t] = rnd.choice([5, 20, 50])
+                sleeps[t] = rnd.choice([200, 1000])
+        modes, a, b = [0] * n, [0] * n, [0] * n
+        if modes_on:
+            for t in range(n):
+                modes[t] = rnd.choice([0, 0, 1, 2, 3, 4])
+                if modes[t] in (2, 3):
+                    a[t] = rnd.choice([0, 0, 1, 2])
+                    b[t] = a[t] + rnd.choice([1, 2, 5, 100])
+        assert w == len(plan)
+        plan.append((n, calls, modes, a, b))
+        pre[w] = list(finished)
+        return lib36.grp_start(w, n, arr(calls), arr(sleeps), arr(delays), arr(modes), arr(a),
+                               arr(b), cb, 1 if use_ep else 0)
+
+    def join(w, h):
+        rc = lib36.grp_join(h) if h >= 0 else 1000
+        finished.append(w)
+        n, calls, modes, a, b = plan[w]
+        if rc == 0 and any(_registers(calls[t], modes[t], a[t], b[t]) for t in range(n)):
+            # a thread started after the waves in pre[w] were joined has obtained a new
+            # thread state: the thread states of those exited threads must be gone
+            nchecks['leak'] += 1
+            for v in pre[w]:
+                for t in range(plan[v][0]):
+                    for ref in tokens.get((v, t), []):
+                        nchecks['leak_threads'] += 1
+                        if ref() is not None:
+                            state_bad.append((
+                                'thread-local-data-of-exited-thread-not-released',
+                                'thread %d of wave %d exited (joined) before wave %d started; '
+                                'wave %d made first callbacks from new threads and is over, but '
+                                'the object stored in the exited thread\'s threading.local is '
+                                'still alive' % (t, v, w, w)))
+            if len(finished) == len(plan):     # no group is running now
+                nchecks['count'] += 1
+                bound = 1 + npy + sum((2 if plan[v][2][t] == 4 else 1 if plan[v][1][t] >= 1 else 0)
+                                      for v in range(len(plan)) if v not in pre[w]
+                                      for t in range(plan[v][0]))
+                cnt = count_tstates()
+                if cnt > bound:
+                    state_bad.append((
+                        'thread-states-of-exited-threads-accumulate',
+                        'after wave %d: the interpreter has %d thread states; at most %d can '
+                        'belong to live threads or to threads that exited after wave %d started '
+                        '(waves %r were joined before that)' % (w, cnt, bound, w, pre[w])))
+        return rc
+
+    def wave(w):
+        return join(w, start(w))
+    rc_total = 0
     for w in range(nwaves):
-        rc_total += wave(w)
+        if overlap and len(open_groups) < 2 and rnd.random() < 0.6:
+            open_groups.append((w, start(w, longlived=True)))
+        else:
+            rc_total += wave(w)
+            if open_groups and rnd.random() < 0.6:
+                rc_total += join(*open_groups.pop(0))
         if rnd.random() < 0.5:
             gc.collect()
+    while open_groups:
+        rc_total += join(*open_groups.pop(rnd.randrange(len(open_groups))))
     stop[0] = True
     for p in pys:
         p.join(60)
@@ -245,6 +754,8 @@ def scenario(st, seed, rep):
         sys.stdout.flush()
         sys.stderr.flush()
         rfd, wfd = os.pipe()
+        time.sleep(0.05)       # let joined threads finish their OS-level teardown (a thread
+        #                        that still holds an allocator lock at fork() hangs the child)
         pid = os.fork()
         if pid == 0:
             try:
@@ -253,14 +764,16 @@ def scenario(st, seed, rep):
                 signal.alarm(240)          # a hung child must not outlive the scenario
                 os.close(rfd)
                 del log[:]
+                del state_bad[:]
+                del nest_bad[:]
                 base = len(plan)
                 crc = 0
                 for w in range(base, base + nchild):
                     crc += wave(w)
-                bad = check(plan[base:], [(w_ - base, t_, i_, id_, n_, o_ and (o_[0] - base, o_[1]))
-                                          for (w_, t_, i_, id_, n_, o_) in log])
+                bad = check(plan, log, base)
                 os.write(wfd, json.dumps({'rc': crc, 'bad': bad[:4], 'events': len(log),
-                                          'nest_bad': nest_bad[:2]}).encode())
+                                          'nest_bad': nest_bad[:2],
+                                          'state_bad': state_bad[:4]}).encode())
             finally:
                 os._exit(0)
         os.close(wfd)
@@ -286,38 +799,55 @@ def scenario(st, seed, rep):
         # the parent goes on too
         w = len(plan)
         rc_total += wave(w)
-    return plan, log, use_ep, npy, rc_total, nest, nest_bad, fork_info, len(inner_seen)
+    return {'plan': plan, 'log': log, 'use_ep': use_ep, 'npy': npy, 'rc': rc_total, 'nest': nest,
+            'nest_bad': nest_bad, 'fork_info': fork_info, 'ninner': len(inner_seen),
+            'state_bad': state_bad, 'nchecks': nchecks, 'raising': raising, 'overlap': overlap,
+            'modes_on': modes_on, 'pycalls': pycalls and npy > 0}
 
 
-def check(plan, log):
+def check(plan, log, first=0):
     bad = []
     per = {}
     for wave, tid, idx, ident, n, owner in log:
         per.setdefault((wave, tid), []).append((idx, ident, n, owner))
-    for w, (n, calls) in enumerate(plan):
+    for w, (n, calls, modes, a, b) in enumerate(plan):
+        if w < first:
+            continue
         for t in range(n):
             evs = per.get((w, t), [])
-            if len(evs) != calls[t]:
-                bad.append(('callback-count', 'wave %d thread %d: %d scripted calls, %d events' %
-                            (w, t, calls[t], len(evs))))
+            nexp = calls[t] + (1 if modes[t] == 4 else 0)
+            if len(evs) != nexp:
+                bad.append(('callback-count', 'wave %d thread %d (mode %d): %d scripted calls, %d '
+                            'events' % (w, t, modes[t], nexp, len(evs))))
                 continue
             idents = set(e[1] for e in evs)
             if len(idents) > 1:
                 bad.append(('thread-ident-changed', 'wave %d thread %d saw %d different '
                             'threading.get_ident() values' % (w, t, len(idents))))
+            # a thread state made by the thread's own PyGILState_Ensure() before its first
+            # cffi callback is deleted by CPython at the matching PyGILState_Release()
+            reset = _reset_at(calls[t], modes[t], a[t], b[t])
             for k, (idx, ident, cnt, owner) in enumerate(evs):
                 if idx != k:
                     bad.append(('callback-order', 'wave %d thread %d: event %d has index %d' %
                                 (w, t, k, idx)))
                     break
-                if cnt != k:
+                want = k if reset is None or k < reset else k - reset
+                if modes[t] == 4 and k == calls[t] and cnt == 0 and owner is None:
+                    # callback from a key destructor: the C library has already cleared the
+                    # slot in which CPython remembers this thread's state; a fresh thread
+                    # state is all that can be had at this point
+                    continue
+                if cnt != want:
                     if owner is not None and owner != (w, t):
                         bad.append(('thread-local-of-another-thread-visible', 'wave %d thread %d '
                                     'call %d sees the thread-local data of thread %r (counter %d)'
                                     % (w, t, k, owner, cnt)))
                     else:
-                        bad.append(('thread-local-not-persistent', 'wave %d thread %d call %d: '
-                                    'thread-local counter is %d' % (w, t, k, cnt)))
+                        bad.append(('thread-local-not-persistent', 'wave %d thread %d (mode %d, '
+                                    'own PyGILState bracket [%d,%d)) call %d: thread-local '
+                                    'counter is %d, expected %d' %
+                                    (w, t, modes[t], a[t], b[t], k, cnt, want)))
                     break
                 if owner is not None and owner != (w, t):
                     bad.append(('thread-local-of-another-thread-visible', 'wave %d thread %d sees '
@@ -329,14 +859,19 @@ def check(plan, log):
 def child_case(st, case):
     rep = core.ChildRep()
     for seed in case['seeds']:
-        plan, log, use_ep, npy, rc, nest, nest_bad, fork_info, ninner = scenario(st, seed, rep)
-        key = (tuple((n, tuple(c)) for n, c in plan), use_ep, npy, nest, bool(fork_info))
-        nthreads = sum(n for n, c in plan)
-        nontriv = sum(1 for n, c in plan for x in c if x >= 2) >= 2
+        r = scenario(st, seed, rep)
+        plan, log, use_ep, npy, rc, nest = (r['plan'], r['log'], r['use_ep'], r['npy'], r['rc'],
+                                            r['nest'])
+        nest_bad, fork_info, ninner = r['nest_bad'], r['fork_info'], r['ninner']
+        key = (tuple((p[0], tuple(p[1]), tuple(p[2])) for p in plan), use_ep, npy, nest,
+               bool(fork_info), r['raising'], r['overlap'])
+        nthreads = sum(p[0] for p in plan)
+        nontriv = sum(1 for p in plan for x in p[1] if x >= 2) >= 2
         rep.case(key, nontrivial=nontriv,
-                 sample={'waves': [[n, c] for n, c in plan], 'extern_python': use_ep,
+                 sample={'waves': [[p[0], p[1], p[2]] for p in plan], 'extern_python': use_ep,
                          'python_threads': npy, 'events': len(log), 'nested': nest,
-                         'forked': bool(fork_info)})
+                         'forked': bool(fork_info), 'raising': r['raising'],
+                         'overlapping': r['overlap']})
         rep.stat('scenarios')
         rep.stat('foreign_threads', nthreads)
         rep.stat('callback_events', len(log))
@@ -344,13 +879,41 @@ def child_case(st, case):
         rep.stat('nested_callback_events', ninner)
         if nest:
             rep.stat('scenarios_nested_' + nest)
+        if r['overlap']:
+            rep.stat('scenarios_overlapping_waves')
+        if r['raising']:
+            rep.stat('scenarios_raising_callbacks')
+        if r['pycalls']:
+            rep.stat('scenarios_python_threads_calling_back')
+        for p in plan:
+            for t in range(p[0]):
+                if p[2][t]:
+                    rep.stat('threads_mode_%s' % {1: 'pthread_exit', 2: 'own_gilstate_held',
+                                                  3: 'own_gilstate_saved',
+                                                  4: 'callback_from_key_destructor'}[p[2][t]])
+                if _reset_at(p[1][t], p[2][t], p[3][t], p[4][t]) is not None:
+                    rep.stat('threads_with_cpython_owned_state_dropped_midway')
+        nc = r['nchecks']
+        rep.stat('gilstate_checks', nc['gil'])
+        rep.stat('frame_checks', nc['frame'])
+        rep.stat('callback_exceptions_handled', nc['raised'])
+        rep.stat('python_thread_callback_events', nc['pycb'])
+        rep.stat('leak_checks', nc['leak'])
+        rep.stat('leak_checked_exited_thread_states', nc['leak_threads'])
+        rep.stat('tstate_count_checks', nc['count'])
         if rc >= 1000:
             rep.bad('harness-pthread-create', 'pthread_create failed', seed)
+        descr = ' | nested=%r raising=%r overlap=%r | seed %d' % (nest, r['raising'],
+                                                                   r['overlap'], seed)
         for mech, msg in check(plan, log)[:6]:
-            rep.bad(mech, msg + ' | nested=%r | seed %d' % (nest, seed), seed)
+            rep.bad(mech, msg + descr, seed)
         for msg in nest_bad[:2]:
-            rep.bad('nested-callback-thread-state', msg + ' | nested=%r | seed %d' % (nest, seed),
-                    seed)
+            rep.bad('nested-callback-thread-state', msg + descr, seed)
+        seen = set()
+        for mech, msg in r['state_bad']:
+            if mech not in seen:
+                seen.add(mech)
+                rep.bad(mech, msg + descr, seed)
         if fork_info:
             rep.stat('scenarios_with_fork')
             st_ = fork_info['status']
@@ -377,6 +940,8 @@ def child_case(st, case):
                         rep.bad(mech + ':in-forked-child', msg + ' | seed %d' % seed, seed)
                     for msg in d['nest_bad']:
                         rep.bad('nested-callback-thread-state:in-forked-child', msg, seed)
+                    for mech, msg in d.get('state_bad', []):
+                        rep.bad(mech + ':in-forked-child', msg + ' | seed %d' % seed, seed)
                     if 'ERROR: AddressSanitizer' in fork_info['san']:
                         rep.bad('sanitizer-report-in-forked-child', where + ': ' +
                                 fork_info['san'][:800].replace('\n', ' / ') + ' | seed %d' % seed,
@@ -393,6 +958,9 @@ def replay(ctx, data):
     case = data['case']
     if case.get('shutdown'):
         shutdown_scenario(ctx, setup, case['seed'], case['variant'])
+        return
+    if case.get('late_exit'):
+        late_exit_scenario(ctx, setup, case['seed'])
         return
     obs = core.run_cases(ctx, 'c36', setup, [case], variant='asan', nproc=1)
     print('observation:', str(obs[0])[:2000])
